@@ -254,7 +254,7 @@ def main : IO Unit := do
   -- the reader's property-header parser: every type nibble x every data nibble, over a tail long enough for
   -- every branch, and over truncated tails
   let tails : List Bytes := [[0x85, 0x0F, 0x04, 0x00, 0x00, 97, 98, 99, 100, 0, 0xfc, 0xfd, 0xfe, 0xff, 1, 97, 9, 9],
-    [0x21, 0x02, 0x01, 2, 97, 98], [0xff, 0x03, 0x02], [1], []]
+    [0xB5, 0x0F, 0x04, 0x00, 0x00] ++ List.replicate 40 (0x61 : UInt8) ++ [2, 97, 98], [0x1F, 1, 97], [0x21, 0x02, 0x01, 2, 97, 98], [0xff, 0x03, 0x02], [1], []]
   let heads : List Bytes := ((List.range 256).map (fun i => UInt8.ofNat i)).flatMap fun b => tails.map fun t => b :: t
   cmp1 "rawPropertyParse" ([] :: heads)
     (fun bs => outcomeText (Generated.rawPropertyParse bs))
